@@ -494,7 +494,7 @@ impl Scenario for Requests {
         // egress sessions carry up to 12 requests and resolver answers: about five times dearer
         match (tier, self.focus) {
             (Tier::Quick, Focus::Egress) => 60_000,
-            (Tier::Thorough, Focus::Egress) => 2_500_000,
+            (Tier::Thorough, Focus::Egress) => 1_500_000,
             (Tier::Quick, _) => 100_000,
             (Tier::Thorough, _) => 6_000_000,
         }
